@@ -8,9 +8,13 @@ Written from the protocol description (https://sw.kovidgoyal.net/kitty/graphics-
 * `lex`      : byte stream → bodies of the `ESC _ G … ESC \` application-programming-commands, everything else
                in the stream (CSI sequences, `ESC 7`, text) is skipped;
 * `parseBody`: `key=value,key=value;payload` → control keys and payload text;
-* `assemble` : chunked transfers (`m=1 … m=0`) are reassembled, the text is base64-decoded (RFC 4648);
+* `assemble` : chunked transfers (`m=1 … m=0`) are reassembled, the text is base64-decoded;
                `a=t|T` transmit, `a=p` put, `a=d` delete; absent `i` / `p` are `0` = *unspecified*;
-* `kitty`    : the composition, `none` on anything malformed.
+* `kittyWith`: the composition, `none` on anything malformed; the base64 decoder applied to the reassembled
+               text is the parameter `dec`;
+* `kitty`    : `kittyWith` the strict RFC 4648 decoder `rfcDecode` (C11 also instantiates `dec` with the
+               identity — the reassembled text itself — and with the model of the crate's streaming
+               `Base64Decoder` under an arbitrary reader schedule, see `SurfProofs/C11.lean`);
 * `Mon`      : the client-visible bookkeeping a terminal does (which image ids hold which pixel data, which
                placements exist) with the rules C11 states; `accepts` runs it over a history.
 -/
@@ -128,10 +132,10 @@ inductive KCmd
   | delete (what : UInt8) (id pid : Nat)
   deriving DecidableEq, Repr
 
-/-- a transfer completed: first command's keys, all chunks in order -/
-def finishTx (first : Raw) (chunks : List (List UInt8)) : Option KCmd :=
+/-- a transfer completed: first command's keys, all chunks in order; `dec` decodes the reassembled text -/
+def finishTx (dec : List UInt8 → Option (List UInt8)) (first : Raw) (chunks : List (List UInt8)) : Option KCmd :=
   match first.chrD 97 116, first.numD 105 0, first.numD 102 32, first.numD 115 0, first.numD 118 0,
-        rfcDecode chunks.flatten with
+        dec chunks.flatten with
   | some a, some id, some f, some s, some v, some data =>
     some (.transmit (a == 84) id f s v (first.find 111) data (chunks.map List.length))
   | _, _, _, _, _, _ => none
@@ -149,12 +153,12 @@ def asmEmit (st : AsmSt) : Option KCmd → AsmSt
   | some c => { st with pending := none, out := c :: st.out }
   | none => asmFail st
 
-def asmStep (st : AsmSt) (r : Raw) : AsmSt :=
+def asmStep (dec : List UInt8 → Option (List UInt8)) (st : AsmSt) (r : Raw) : AsmSt :=
   match st.pending with
   | some (first, chunks) =>
     -- while a chunked transfer is open every command continues it; only `m` matters
     match r.numD 109 0 with
-    | some 0 => asmEmit st (finishTx first (r.payload :: chunks).reverse)
+    | some 0 => asmEmit st (finishTx dec first (r.payload :: chunks).reverse)
     | some 1 => { st with pending := some (first, r.payload :: chunks) }
     | _ => asmFail st
   | none =>
@@ -163,7 +167,7 @@ def asmStep (st : AsmSt) (r : Raw) : AsmSt :=
     | some a =>
       if a = 116 ∨ a = 84 then
         match r.numD 109 0 with
-        | some 0 => asmEmit st (finishTx r [r.payload])
+        | some 0 => asmEmit st (finishTx dec r [r.payload])
         | some 1 => { st with pending := some (r, [r.payload]) }
         | _ => asmFail st
       else if a = 112 then
@@ -178,18 +182,22 @@ def asmStep (st : AsmSt) (r : Raw) : AsmSt :=
 
 def asmInit : AsmSt := ⟨none, [], true⟩
 
-def assemble (raws : List Raw) : Option (List KCmd) :=
-  let st := raws.foldl asmStep asmInit
+def assemble (dec : List UInt8 → Option (List UInt8)) (raws : List Raw) : Option (List KCmd) :=
+  let st := raws.foldl (asmStep dec) asmInit
   if st.ok ∧ st.pending.isNone then some st.out.reverse else none
 
-/-- The reference interpreter: the graphics commands a terminal reads from a byte stream. -/
-def kitty (bs : List UInt8) : Option (List KCmd) :=
+/-- The reference interpreter: the graphics commands a terminal reads from a byte stream, the payload text of
+a transmission decoded by `dec`. -/
+def kittyWith (dec : List UInt8 → Option (List UInt8)) (bs : List UInt8) : Option (List KCmd) :=
   match lex bs with
   | none => none
   | some bodies =>
     match bodies.mapM parseBody with
     | none => none
-    | some raws => assemble raws
+    | some raws => assemble dec raws
+
+/-- The reference interpreter with the strict RFC 4648 decoder. -/
+def kitty (bs : List UInt8) : Option (List KCmd) := kittyWith rfcDecode bs
 
 /-! ## what a deletion addresses (protocol: `d=i` deletes the placements of image `i`; with `p` only that
 placement; `p=0` / absent = all placements of the image) -/
